@@ -211,6 +211,18 @@ static int n_wfaults = 0;
 static long write_calls = 0;
 static int write_log = 0;
 static int write_allone = 0;
+/* close seam (writer.c, sorter.c, reader.c are compiled with -Dclose=vs_close): a close() that fails with EBADF is a close of a
+ * descriptor the object no longer owns (a second close); with several threads it would hit whoever got that number meanwhile */
+int vs_close(int fd);
+int vs_close(int fd) {
+	int r = close(fd);
+	if (r < 0 && errno == EBADF) {
+		struct sbuf s = {0};
+		sb_printf(&s, "{\"e\":\"BadClose\",\"fd\":%d}", fd);
+		sb_emit(&s);
+	}
+	return r;
+}
 ssize_t vs_write(int fd, const void *buf, size_t n);
 ssize_t vs_write(int fd, const void *buf, size_t n) {
 	long c = __atomic_add_fetch(&write_calls, 1, __ATOMIC_SEQ_CST);
